@@ -144,6 +144,8 @@ def execute(case):
         ref2 = float((xd.abs() ** 2).sum())
         if ck.require(torch.is_tensor(got) and got.numel() == 1, "norm_shape",
                       "norm returned %s" % (list(got.shape) if torch.is_tensor(got) else type(got).__name__)):
+            ck.require(not got.dtype.is_complex, "norm_dtype", "norm(squared=%s) of a %s operand (autograd %s) has dtype %s, the dense value is real" % (
+                case["squared"], dt, mode, got.dtype))
             g = complex(got.detach().reshape(-1)[0].item())
             g2 = g if case["squared"] else g * g
             if not case["squared"]:
